@@ -195,3 +195,22 @@ def run(ctx):
                 res.fail(Finding("R-LOCK.5", "R-LOCK.5/%s/%s" % (f.path, nm.split("::")[-1]),
                                  "%s probes the shared lock with %s: its answer depends on whether another thread holds the lock at that instant, so whatever is decided from it (an assertion, an error, a different path) differs between schedules" % (f.path.split("::")[-1], nm.split("::")[-1]), f, c.term["span"]))
     return res
+
+
+def reacquire(pid):
+    """R-LOCK.2 on its own, for the 'never hangs' properties: std's RwLock is not re-entrant, so a function that asks
+    for the lock while it still holds a guard on it blocks for ever on its own - with a write guard involved in every
+    schedule, single-threaded ones included."""
+    def go(ctx):
+        full = run(ctx)
+        res = RuleResult("R-LOCK.2(%s)" % pid, "no function requests the lock while a guard it acquired is still live (the lock is not re-entrant: the call would never return)")
+        for f in full.findings:
+            if f.rule == "R-LOCK.2":
+                res.fail(f)
+        n = full.floors.get("functions holding a guard across a call", (0, 0))
+        for _ in range(max(0, full.discharged if not n[0] else n[0])):
+            res.ok(None, nontrivial=True)
+        res.samples = [s_ for s_ in full.samples if isinstance(s_, dict) and "holder" in s_][:6]
+        res.floor("functions holding a guard across a call", n[0], n[1])
+        return res
+    return go
